@@ -44,12 +44,71 @@ pub enum PS {
     Panic(String),
 }
 
-pub fn parse_spec(input: &str) -> PS {
+fn parse_once(input: &str) -> PS {
     match parse_real(input) {
         P::Ok(o, e) => PS::Ok(opts_of(&o), conv::expr(&e)),
         P::Err(t) => PS::Err(t),
         P::Panic(p) => PS::Panic(p),
     }
+}
+
+/// Parse; inputs of 24 bytes or more are parsed a second time on the same thread and the two
+/// answers must be equal (a result that depends on an earlier call is reported like a panic,
+/// with the pseudo-site `parse-history`).
+pub fn parse_spec(input: &str) -> PS {
+    let first = parse_once(input);
+    if input.len() >= 24 {
+        let second = parse_once(input);
+        if first != second {
+            return PS::Panic(format!("src/parse-history:0: a second parse of the same text on the same thread returned a different answer: {:?} then {:?}", brief(&first), brief(&second)));
+        }
+    }
+    first
+}
+
+fn brief(p: &PS) -> String {
+    match p {
+        PS::Ok(o, t) => format!("Ok({}, {})", o.dbg, t.show()),
+        PS::Err(e) => format!("Err({e})"),
+        PS::Panic(p) => format!("Panic({p})"),
+    }
+}
+
+/// Results of parsing each input alone on a fresh thread, and of parsing input j right after
+/// input i on a fresh thread: `(i, j, answer after i, answer alone)` for every pair that differs.
+pub fn parse_history_pairs(inputs: &[String]) -> Vec<(usize, usize, String, String)> {
+    let alone: Vec<String> = inputs
+        .iter()
+        .map(|s| {
+            let s = s.clone();
+            std::thread::Builder::new().stack_size(256 << 20).spawn(move || brief(&parse_once(&s))).unwrap().join().unwrap_or_else(|_| "thread died".into())
+        })
+        .collect();
+    let mut out = vec![];
+    for i in 0..inputs.len() {
+        let a = inputs[i].clone();
+        let all: Vec<String> = inputs.to_vec();
+        let res: Vec<String> = std::thread::Builder::new()
+            .stack_size(256 << 20)
+            .spawn(move || {
+                // prime with input i, then every j in turn, re-priming before each
+                all.iter()
+                    .map(|b| {
+                        let _ = parse_once(&a);
+                        brief(&parse_once(b))
+                    })
+                    .collect()
+            })
+            .unwrap()
+            .join()
+            .unwrap_or_default();
+        for (j, r) in res.iter().enumerate() {
+            if r != &alone[j] {
+                out.push((i, j, r.clone(), alone[j].clone()));
+            }
+        }
+    }
+    out
 }
 
 pub type IoMap = BTreeMap<u32, (Option<String>, Option<char>)>;
